@@ -7,7 +7,11 @@ package bbr
 // MTU raises) generates QUIC-consistent traces following quic-go's call discipline and drives the
 // REAL bbrSender (fake clock, fake RTT stats).  After every event the harness evaluates the
 // property's own verdict on the real sender; for a sample of events it dumps the integer fields
-// before/after plus the oracle values the Coq model needs to recompute the update.
+// before/after plus the oracle values the Coq model needs to recompute the update (window update, calculateCongestionWindow,
+// GetCongestionWindow, bandwidthForPacer from the pacing rate in bits/s - the harness does no arithmetic of its own there).
+// Scenario classes (vlib/props/C12.py): clean / lossy / probertt / applimited at 0.6..2.5 MB/s; slow-* = 20..200 KB/s
+// bottlenecks (pacing rate below the 64 KB/s floor once STARTUP is left); smallmax* = newBbrSender with a small configured
+// maximum / initial window and fat = NewBbrSender on 150..400 MB/s x 80..150 ms (gain x BDP above the maximum window).
 
 import (
 	"fmt"
